@@ -228,7 +228,24 @@ static void child(char *dir, int uid, int argc, char **argv)
 	int fd, rc;
 	snprintf(p, sizeof p, "%s/root", dir);
 	if (chdir(p)) _exit(120);
-	fd = __real_open("../stdin", O_RDONLY); if (fd < 0) _exit(121); dup2(fd, 0); close(fd);
+	if (access("../stdin-pipe", F_OK) == 0) {
+		/* standard input is a real pipe fed by a writer process */
+		int pfd[2];
+		if (pipe(pfd)) _exit(121);
+		if (fork() == 0) {
+			char b[4096];
+			ssize_t n;
+			int in = __real_open("../stdin", O_RDONLY);
+			close(pfd[0]);
+			signal(SIGPIPE, SIG_DFL);
+			while (in >= 0 && (n = read(in, b, sizeof b)) > 0) if (write(pfd[1], b, (size_t) n) != n) break;
+			_exit(0);
+		}
+		close(pfd[1]);
+		dup2(pfd[0], 0); close(pfd[0]);
+	} else {
+		fd = __real_open("../stdin", O_RDONLY); if (fd < 0) _exit(121); dup2(fd, 0); close(fd);
+	}
 	fd = __real_open("../stdout", O_WRONLY | O_CREAT | O_TRUNC, 0666); if (fd < 0) _exit(122); dup2(fd, 1); close(fd);
 	fd = __real_open("../stderr", O_WRONLY | O_CREAT | O_TRUNC, 0666); if (fd < 0) _exit(123); dup2(fd, 2); close(fd);
 	fd = __real_open("../oplog", O_WRONLY | O_CREAT | O_TRUNC | O_APPEND, 0666); if (fd < 0) _exit(124); dup2(fd, LOGFD); close(fd);
